@@ -1104,8 +1104,11 @@ theorem inv_step {s s' : State} (inv : Inv s) (uq : OpsUniq s) {e : TEv} (h : st
     rename_i n i del _ _ _
     split at h
     · rename_i x hx
-      cases h
-      exact inv_setInst_book inv hx rfl rfl rfl (fun _ hm => hm) rfl
+      split at h
+      · cases h
+        exact inv_setInst_book inv hx rfl rfl rfl (fun _ hm => hm) rfl
+      · cases h
+        exact inv_setInst_book inv hx rfl rfl rfl (fun _ hm => hm) rfl
     · cases h; exact inv
   · -- api stop
     split at h
@@ -1305,7 +1308,9 @@ theorem uniq_step {s s' : State} (uq : OpsUniq s) {e : TEv} (h : step s e = .ok 
             · cases h; exact uq
           · cases h
       · cases h; exact uq
-  · split at h <;> (cases h; exact uq)
+  · split at h
+    · split at h <;> (cases h; exact uq)
+    · cases h; exact uq
   · split at h <;> (cases h; exact uq)
   · split at h <;> (cases h; exact uq)
   · split at h <;> (cases h; exact uq)
